@@ -11,8 +11,8 @@ requests.
 
 Oracle (per case): run_server returns normally at EOF; stdout lines == input lines + 1; every line is one strict JSON
 object with `version`; where the documents demand it the reply carries `error`; the captured configuration (values, user
-values, choice picks), the files on disk and the replies to the probes equal those of the TWIN history in which the
-offending request (or just its offending entry) is removed.  In-process stdout is the captured `sys.stdout`; a subset is
+values, choice picks), the files on disk and the replies to the probes equal those of the TWIN history in which just the
+offending entry is removed or -- the other reading the statement allows -- the whole offending request is removed.  In-process stdout is the captured `sys.stdout`; a subset is
 replayed on a real `python -m kconfserver` (conformance) whose stdout must be byte-identical.
 
 What counts as offending (docs/en/kconfserver/index.rst "Kconfig Symbol Types", "Interaction", "Error Responses"):
@@ -29,7 +29,7 @@ from __future__ import annotations
 import itertools
 import json
 import os
-from typing import Any, Dict, List, Optional, Tuple
+from typing import Dict, List, Optional, Tuple
 
 from .. import common, kgen, server
 from ..kgen import Cfg, Choice, L, Menu, Program, S
@@ -416,7 +416,18 @@ def check_case(r: common.Result, dv: int, rv: int, pi: int, c: dict) -> None:
         if canon.exc is None and server.config_state(canon.kconfig) == server.config_state(main.kconfig):
             r.count("tolerated_form_applied_like_canonical")
             return
-    compare_with_twin(r, main, twin, len(PROBES), {"request_class": cls}, ctx, cs)
+    sub = common.Result()
+    if compare_with_twin(sub, main, twin, len(PROBES), {"request_class": cls}, ctx, cs):
+        return
+    if c["twin"] is not None:
+        # the other documented reading: the whole offending request is refused
+        twin2 = do_run(prior + PROBES, dv)
+        r.evals += 1
+        if twin2.exc is None and compare_with_twin(common.Result(), main, twin2, len(PROBES), {}, ctx, cs):
+            r.count("whole_request_refused")
+            return
+    for v in sub.viols:
+        r.violation(v["sig"], v["msg"], v["case"])
 
 
 def check_seq(r: common.Result, dv: int, idxs: List[int], reps) -> None:
@@ -464,6 +475,14 @@ def check_seq(r: common.Result, dv: int, idxs: List[int], reps) -> None:
     sub = common.Result()
     if compare_with_twin(sub, main, twin, len(PROBES), {}, ctx, cs):
         return
+    if any(seq[j][2] is not None for j in bad):
+        # the other documented reading: every offending request is refused as a whole
+        t2 = [s_[1] for s_ in seq if s_[2] == "same"] + PROBES
+        twin2 = do_run(t2, dv)
+        r.evals += 1
+        if twin2.exc is None and compare_with_twin(common.Result(), main, twin2, len(PROBES), {}, ctx, cs):
+            r.count("whole_request_refused")
+            return
     # attribute: offending requests that, put back into the twin one at a time, reproduce a disagreement on their own
     culprits = []
     for j in bad:
